@@ -77,7 +77,7 @@ theorem history_free (ops : List Op) (b : Bin) :
   rw [(build_post (run ops fresh) b false (marker_inv ops)).1, (build_post fresh b false fresh_inv).1]
 
 theorem glue_pinned :
-    Gen.pinTreesBuild = "0c5f46b8b64ab4d2" ∧ Gen.pinTreesInit = "842330566ccff74d" ∧
+    Gen.pinTreesBuild = "fed03c5ad7ad2348" ∧ Gen.pinTreesInit = "842330566ccff74d" ∧
     Gen.pinTreesLoad = "981cd4cac1e6fb03" ∧ Gen.pinCatalogBuildTrees = "d3dae8f38df94187" := by decide
 
 /-! non-vacuity: same edges, other closed side ⇒ rebuilt -/
